@@ -3,6 +3,7 @@ package verifsim
 import (
 	"fmt"
 	"runtime"
+	"runtime/debug"
 	"sort"
 	"strings"
 	"sync"
@@ -56,6 +57,10 @@ type Sim struct {
 	T *Tape
 	// Prop is the property under check (VERIF_PROP); ViolateP reports only its clauses.
 	Prop string
+	// WriterPref models sync.RWMutex writer preference: while a writer is parked on a mutex, new
+	// readers of that mutex are not admitted (the writer has already called Lock). With it off a
+	// reader may overtake a parked writer (the writer has not reached Lock yet). Both are legal.
+	WriterPref bool
 
 	mu     sync.Mutex // protects everything below; never held while blocking
 	parked []*waiter
@@ -234,10 +239,67 @@ func (s *Sim) Go(name string, fn func()) *Task {
 	s.mu.Unlock()
 	go func() {
 		defer t.done.Store(true)
+		defer s.recoverTask(name)
 		s.park(&waiter{label: "start " + name, kind: wYield, task: t})
 		fn()
 	}()
 	return t
+}
+
+// Spawn starts a background goroutine of the world (e.g. a service loop of the
+// code under test that the harness has to start itself). It runs at once, is
+// not a client task, and a panic of the code under test inside it becomes a
+// violation instead of killing the process.
+func (s *Sim) Spawn(name string, fn func()) {
+	go func() {
+		defer s.recoverTask(name)
+		fn()
+	}()
+}
+
+// recoverTask turns a panic raised by code under test inside a client task
+// into a violation (clause "panic"); a panic raised by the simulator kit or a
+// harness file is re-raised (harness trouble, exit 2).
+func (s *Sim) recoverTask(name string) {
+	r := recover()
+	if r == nil {
+		return
+	}
+	stack := string(debug.Stack())
+	fn, file := panicSite(stack)
+	if strings.Contains(file, "/internal/verif") || strings.Contains(file, "zz_verif_") || fn == "" {
+		panic(fmt.Sprintf("harness panic in task %s: %v\n%s", name, r, stack))
+	}
+	s.Violate("panic", fn, "task %s: code under test panicked: %v (at %s %s)", name, r, fn, file)
+}
+
+// panicSite returns the function and file:line that raised the panic, read
+// from a stack captured inside the deferred recover.
+func panicSite(stack string) (string, string) {
+	lines := strings.Split(stack, "\n")
+	for i := 0; i < len(lines); i++ {
+		if !strings.HasPrefix(lines[i], "panic(") {
+			continue
+		}
+		for j := i + 2; j+1 < len(lines); j += 2 {
+			fn := lines[j]
+			if strings.HasPrefix(fn, "runtime.") {
+				continue
+			}
+			if k := strings.LastIndex(fn, "("); k > 0 {
+				fn = fn[:k]
+			}
+			if k := strings.LastIndex(fn, "/"); k >= 0 {
+				fn = fn[k+1:]
+			}
+			file := strings.TrimSpace(lines[j+1])
+			if k := strings.Index(file, " +0x"); k > 0 {
+				file = file[:k]
+			}
+			return fn, file
+		}
+	}
+	return "", ""
 }
 
 // Parked is a snapshot entry of a parked goroutine.
@@ -247,12 +309,22 @@ type Parked struct {
 	w       *waiter
 }
 
-func (w *waiter) enabledLocked() bool {
+func (w *waiter) enabledLocked(s *Sim) bool {
 	switch w.kind {
 	case wLock:
 		return !w.mu.writer && w.mu.readers == 0
 	case wRLock:
-		return !w.mu.writer
+		if w.mu.writer {
+			return false
+		}
+		if s.WriterPref {
+			for _, o := range s.parked {
+				if o.kind == wLock && o.mu == w.mu && o.seq < w.seq {
+					return false
+				}
+			}
+		}
+		return true
 	}
 	return true
 }
@@ -266,7 +338,7 @@ func (s *Sim) Settle() []Parked {
 	defer s.mu.Unlock()
 	out := make([]Parked, 0, len(s.parked))
 	for _, w := range s.parked {
-		out = append(out, Parked{Label: w.label, Enabled: w.enabledLocked(), w: w})
+		out = append(out, Parked{Label: w.label, Enabled: w.enabledLocked(s), w: w})
 	}
 	sort.SliceStable(out, func(i, j int) bool {
 		if out[i].Label != out[j].Label {
@@ -293,7 +365,7 @@ func (s *Sim) Release(p Parked) {
 		panic("verifsim: Release of a goroutine that is not parked: " + p.Label)
 	}
 	w := p.w
-	if !w.enabledLocked() {
+	if !w.enabledLocked(s) {
 		s.mu.Unlock()
 		panic("verifsim: Release of a disabled waiter: " + p.Label)
 	}
@@ -405,8 +477,19 @@ func (s *Sim) BlockedReport() (string, string) {
 				edges = append(edges, edge{w.g, w.mu.holderG, w.label + "<-" + w.mu.holder})
 			}
 			for _, rh := range w.mu.rholders {
+				if w.kind == wRLock {
+					continue // readers do not block readers
+				}
 				held = append(held, "R:"+rh.label)
 				edges = append(edges, edge{w.g, rh.g, w.label + "<-R:" + rh.label})
+			}
+			if w.kind == wRLock && s.WriterPref {
+				for _, o := range s.parked {
+					if o.kind == wLock && o.mu == w.mu && o.seq < w.seq {
+						held = append(held, "W-waiting:"+o.label)
+						edges = append(edges, edge{w.g, o.g, w.label + "<-W-waiting:" + o.label})
+					}
+				}
 			}
 			lines = append(lines, fmt.Sprintf("%s waits for mutex held by [%s]", w.label, strings.Join(held, ",")))
 		default:
